@@ -86,6 +86,24 @@ def _under_labile_loop(f, st) -> bool:
     return False
 
 
+def source_parity(ctx, rep, clause):
+    """the mass accumulator and the composition accumulator resolve modifications from the same places"""
+    program = ctx.program
+    a = C02.term_sources(program.func(MASS), 'mod_mass')
+    b = C02.term_sources(program.func(SEQ_COMP), 'mod_comp')
+    for kind in C02.SOURCE_KINDS:
+        ob(rep, 'SIB-source', MASS if kind not in a else SEQ_COMP, f'both calculators resolve modifications from {kind}',
+           kind in a and kind in b, f'mass: {len(a.get(kind, []))} site(s), composition: {len(b.get(kind, []))} site(s)',
+           f'modifications from {kind} are resolved by ' +
+           ('neither calculator' if kind not in a and kind not in b else
+            ('the composition calculator only' if kind not in a else 'the mass calculator only')) +
+           ': mass and composition of such a peptide disagree', program.func(MASS if kind not in a else SEQ_COMP).loc(),
+           clause)
+    extra = sorted(k for k in set(a) ^ set(b) if k not in C02.SOURCE_KINDS)
+    ob(rep, 'SIB-source', MASS, 'no further modification source is read by one calculator only', not extra, 'none',
+       f'read by one calculator only: {extra}', program.func(MASS).loc(), clause)
+
+
 def multiplier_parity(ctx, rep, clause):
     an, program = ctx.analyzer, ctx.program
     for fq in ('peptacular.mass_calc:mod_mass', 'peptacular.chem.chem_calc:mod_comp'):
@@ -121,11 +139,37 @@ def unwrap_sites(ctx, rep, clause):
 def definition_pairing(ctx, rep, clause):
     program = ctx.program
     f = program.func('peptacular.chem.chem_calc:estimate_comp')
-    txt = ' '.join(norm_stmt(s) for s in f.node.body)
-    ok = 'AVERAGINE_RATIOS.items()' in txt and '/ ISOTOPIC_AVERAGINE_MASS' in txt and 'neutral_mass' in txt
-    ob(rep, 'SIB-def', f.fq, 'estimate = ratio * mass / ISOTOPIC_AVERAGINE_MASS over AVERAGINE_RATIOS', ok,
-       'numerator and divisor range over the same ratio table (the estimate has the requested monoisotopic mass)',
-       f'unexpected shape: the estimated composition would not have the requested mass', f.loc(), clause)
+    # the estimate is linear in the mass: count(atom) = ratio(atom) * neutral_mass / ISOTOPIC_AVERAGINE_MASS, with no
+    # clamping, rounding or offset (the residual it absorbs can be negative; any non-linear step changes the mass)
+    comps = [n for n in walk_own(f.node) if isinstance(n, ast.DictComp) and
+             'AVERAGINE_RATIOS.items()' in norm_stmt(n.generators[0].iter)]
+    ok, why = False, 'no dict comprehension over AVERAGINE_RATIOS.items() found'
+    if comps:
+        dc = comps[0]
+        tgt = dc.generators[0].target
+        ratio = tgt.elts[1].id if isinstance(tgt, ast.Tuple) and len(tgt.elts) == 2 and \
+            isinstance(tgt.elts[1], ast.Name) else None
+        num, den, other = [], [], []
+
+        def collect(e, into_num=True):
+            if isinstance(e, ast.BinOp) and isinstance(e.op, ast.Mult):
+                collect(e.left, into_num)
+                collect(e.right, into_num)
+            elif isinstance(e, ast.BinOp) and isinstance(e.op, ast.Div):
+                collect(e.left, into_num)
+                collect(e.right, not into_num)
+            elif isinstance(e, ast.Name):
+                (num if into_num else den).append(e.id)
+            else:
+                other.append(norm_stmt(e))
+        collect(dc.value)
+        ok = not other and sorted(num) == sorted([ratio or '?', 'neutral_mass']) and den == ['ISOTOPIC_AVERAGINE_MASS'] \
+            and not dc.generators[0].ifs
+        why = f'numerator {sorted(num)}, divisor {den}' + (f', non-linear part {other}' if other else '')
+    ob(rep, 'SIB-def', f.fq, 'estimate = ratio * mass / ISOTOPIC_AVERAGINE_MASS over AVERAGINE_RATIOS', ok, why,
+       f'the per-atom estimate is not the plain product ratio x neutral_mass / ISOTOPIC_AVERAGINE_MASS ({why}): the '
+       f'estimated composition no longer has the requested mass (the residual it absorbs may be negative)', f.loc(),
+       clause)
     # particle keys in chem_mass
     g = program.func('peptacular.chem.chem_util:chem_mass')
     want = {'e': 'ELECTRON_MASS', 'p': 'PROTON_MASS', 'n': 'NEUTRON_MASS'}
@@ -170,9 +214,12 @@ def check(ctx, rep):
     C02.adduct_homogeneity(ctx, rep, 'C03c')
     obs = forwarding(an, program, ['monoisotopic', 'use_isotope_on_mods', 'isotope_mods', 'charge_adducts',
                                    'ion_type', 'isotope', 'charge'],
-                     callers={MASS, COMP_MASS, 'peptacular.mass_calc:comp', 'peptacular.mass_calc:mz'})
+                     callers={MASS, COMP_MASS, 'peptacular.mass_calc:comp', 'peptacular.mass_calc:mz',
+                              'peptacular.mass_calc:mod_mass', 'peptacular.mass_calc:_parse_mod_mass',
+                              'peptacular.chem.chem_calc:mod_comp', 'peptacular.chem.chem_calc:_parse_mod_comp'})
     n = add_fwd(rep, obs, 'C03d')
     rep.floor('FWD', 'forwarding sites between the two calculators', n, 20)
+    source_parity(ctx, rep, 'C03b')
     multiplier_parity(ctx, rep, 'C03e')
     unwrap_sites(ctx, rep, 'C03e')
     definition_pairing(ctx, rep, 'C03f')
